@@ -132,6 +132,17 @@ func checkC02(c *Ctx) (int, error) {
 		pp = 6
 	}
 	streams = append(streams, boundaryStreams(rng, pp, false)...)
+	// long streams of symbols with three- and four-bit codes: the output window fills dozens of
+	// times, at every alignment relative to the multi-symbol table entries
+	nLong := 5
+	if c.Tier == "thorough" {
+		nLong = 40
+	}
+	for li := 0; li < nLong; li++ {
+		cl := []string{"digits", "alpha4", "alpha3", "text", "digits"}[li%5]
+		streams = append(streams, namedStream{name: fmt.Sprintf("long-%s-%d", cl, li), kind: "flate",
+			s: encStream("std", "flate", []int{-2, -2, 6, 1}[li%4], DataSpec{Class: cl, Seed: rng.Int63n(1 << 30), Len: 400000 + rng.Intn(800000) + li}, nil)})
+	}
 	var cases []*RCase
 	for i, st := range streams {
 		for _, arch := range c.Levels {
@@ -201,6 +212,18 @@ func checkC03(c *Ctx) (int, error) {
 				streams = append(streams, namedStream{name: "extra-" + k, kind: "flate", s: RStream{Synth: &SynthSpec{d}}})
 			}
 		}
+	}
+	for i := 0; i < 12; i++ {
+		hx, err := noDistMatchHex(rng, i%3 != 0)
+		if err != nil {
+			return 0, err
+		}
+		st := namedStream{name: fmt.Sprintf("matchWithoutDistCodes%d", i), kind: "flate", s: RStream{Hex: hx}}
+		b, _ := st.s.Build()
+		if o := oracleFor("flate", b, nil, true); o.StdVerdict == "eof" || o.RefVerdict == "eof" {
+			return 0, fmt.Errorf("oracle disagreement: %s is accepted (std %s, ref %s)", st.name, o.StdVerdict, o.RefVerdict)
+		}
+		streams = append(streams, st)
 	}
 	nFault := len(streams)
 	// mutated valid streams
@@ -299,7 +322,7 @@ func checkC18(c *Ctx) (int, error) {
 		return 0, err
 	}
 	rng := rand.New(rand.NewSource(c.Seed))
-	num, nEnc, nMut := 300, 40, 600
+	num, nEnc, nMut := 700, 40, 600
 	if c.Tier == "thorough" {
 		num, nEnc, nMut = 8000, 800, 30000
 	}
